@@ -18,6 +18,9 @@ def setup():
     world.rebind(T, np=symnp, pd=sympd, pq=vfs.pq_stub, pa=vfs.pa_stub)
     world.rebind(D, np=symnp, pd=sympd)
     world.rebind(Q, np=symnp)
+    for m in (C, W, U, T, D):  # Path(x).unlink() / .exists() / .glob() must reach the VFS like os.unlink does
+        if "Path" in m.__dict__:
+            m.__dict__["Path"] = vfs.VPath
     return C, W, U, T, D, Q
 
 
